@@ -82,3 +82,14 @@ CLAIMED['C09'] = dict(
     note="Trusted: z3, vf/refsem.py. 8-bit values; conditions of 1 and 8 bits; shapes from a fixed grammar.",
     technique="SMT validity queries over the output of the real possible_values per shape",
     design_ref="DESIGN.md §3 C09", engine='refsem')
+
+CLAIMED['C10'] = dict(
+    level='other',
+    text="(a) every ModularIntervals operation runs with symbolic interval bounds/modulus at set sizes 3..4 (quick) / 3..5 "
+         "(thorough); with symbolic members x in A, y in B z3 proves (x op y mod 2^n) in result per path. (b) expr_range runs on "
+         "typed depth<=2 templates (base width 4) with symbolic constants; z3 proves refsem(e) in expr_range(e) for all "
+         "constants, identifiers and memory bytes.",
+    note="Trusted: z3, vf/refsem.py, vf/symx.py; interval bounds concretise inside range() (exhaustive enumeration). Sizes "
+         "above 5 bits are outside the claim (bit loops fork per bit).",
+    technique="symbolic execution of the real Python (symbolic interval bounds / constants) + z3 membership query per path",
+    design_ref="DESIGN.md §3 C10")
